@@ -19,7 +19,7 @@ RULE = ("random factor pairs over a 6-variable universe (scopes disjoint/nested/
         "normalize/scalars/get_value/set_value/assignment/identity/factor_product/factor_sum_product/==/hash "
         "in-place and out-of-place, with operand snapshots before/after and after mutating the result; 'perm' cases "
         "run every axis permutation of both operands (<=4 variables); 'eq' cases probe == just inside/outside "
-        "atol+rtol|b| and under axis/state permutations; 'err' cases the rejection paths; 'alias' cases: the SAME object as both operands of product/sum/divide (method, operator, in place, in place twice) for factors whose variable order differs from set iteration order (descending small ints, strings under several hash seeds), equal and unequal cardinalities, asymmetric tables; factor_sum_product and factor_product on lists with value-equal factors (same object twice, equal copy, equal content in another axis order, f-g-f, three equal): the model and the brute force count multiplicity (a FactorSet is a Python set and FactorDict.product goes through one: equal members collapse there by construction, the D2 family recorded elsewhere); 'fdict' cases: two FactorDicts over the same cliques whose same-scope factors list the variables in DIFFERENT axis orders (equal and unequal cardinalities): dot (both directions, self) against the model (total of the modelled product table) and the brute-force sum over named assignments of f*g, dict +/- against the modelled DiscreteFactor.sum, const*/+number, <d1,d1-d2> bilinearity, from_dataframe against row counts; 'fset' cases FactorSet product/divide/marginalize (in place and out of place), factorset_product/factorset_divide, copy, the copying constructor, and FactorDict const*, +number, +, -, dot, product on sets of pairwise distinct factors, compared with a Python brute force over named assignments (a FactorSet is the multiset of its factors; not modelled in Coq beyond the store-model purity theorem), with operand snapshots, `is`-sharing checks and mutation of the result (in-place marginalize, values += 1, field rebinding on every member factor); numpy and torch backends. "
+        "atol+rtol|b| and under axis/state permutations; 'err' cases the rejection paths; 'nearone' cases (class Q): normalize out of place / in place / default / twice / after a near-one scalar product / after marginalize on tables whose total is 1 +- 10^-k (k = 2..12; k <= 6 under torch's float32), 1 +- a few ulp, or typed with 2-9 decimals, compared RELATIVELY (1e-9) with the model's exact v/sum(v) and asserting the result's total (a quarter of the session cases start from such a table); class N: every name object handed to pgmpy is rebuilt (equal, never identical: strings, tuples, ints above 256); class O: variables given as tuple, set, frozenset, dict keys view, ndarray and pandas Index (one-shot iterators are not 'list, array-like'); class P: a variable with 257 / 300 states ('wide'), 9-10 variable factors ('big'); class R: the optional features of these files (inplace, show_warnings, atol, state_names, backend) are crossed in every stream; 'alias' cases: the SAME object as both operands of product/sum/divide (method, operator, in place, in place twice) for factors whose variable order differs from set iteration order (descending small ints, strings under several hash seeds), equal and unequal cardinalities, asymmetric tables; factor_sum_product and factor_product on lists with value-equal factors (same object twice, equal copy, equal content in another axis order, f-g-f, three equal): the model and the brute force count multiplicity (a FactorSet is a Python set and FactorDict.product goes through one: equal members collapse there by construction, the D2 family recorded elsewhere); 'fdict' cases: two FactorDicts over the same cliques whose same-scope factors list the variables in DIFFERENT axis orders (equal and unequal cardinalities): dot (both directions, self) against the model (total of the modelled product table) and the brute-force sum over named assignments of f*g, dict +/- against the modelled DiscreteFactor.sum, const*/+number, <d1,d1-d2> bilinearity, from_dataframe against row counts; 'fset' cases FactorSet product/divide/marginalize (in place and out of place), factorset_product/factorset_divide, copy, the copying constructor, and FactorDict const*, +number, +, -, dot, product on sets of pairwise distinct factors, compared with a Python brute force over named assignments (a FactorSet is the multiset of its factors; not modelled in Coq beyond the store-model purity theorem), with operand snapshots, `is`-sharing checks and mutation of the result (in-place marginalize, values += 1, field rebinding on every member factor); numpy and torch backends. "
         "GENERALISATION CLASSES: A sessions - 'session' cases run 5-8 IN-PLACE operations (product/sum/divide/marginalize/maximize/reduce/normalize/scalar */+/set_value, with observe steps str/repr/scope/get_cardinality/copy/hash/==/identity_factor/sample that must not change the object) on ONE factor object, the model following step by step, after every step: literal comparison, == a freshly built object in both directions, a changed object must change its hash; B argument purity - 'purity' cases snapshot every caller argument (variables list/tuple, cardinality list/ndarray, values list/tuple/ndarray flat/shaped/other.values/reused buffer/torch tensor, state_names dict and inner lists, marginalize/maximize/reduce/get_cardinality/assignment arguments, the from_dataframe frame) before/after the call and after wrecking the result, and reuse the same argument object for a second call on other data; C result independence - every out-of-place result is mutated and operands re-compared, the same call is repeated and must give a distinct, correct object; D pandas - FactorDict.from_dataframe with RangeIndex/shifted/permuted/gapped/duplicate/string index, shuffled column order, an unused column, int/str/bool/categorical(with unused categories)/constant columns, substring column names, compared with row counts (DiscreteFactor.sample only as a no-mutation/columns check: its law is C07's); E names - variable name styles str/int/tuple/substr (x1,x10,x,x11..)/mixed int+str+tuple in one factor (factor_sum_product rejects mutually unorderable names: opt_einsum documents comparable labels - tolerated exactly there), no format keywords exist in these files; F state names - default, permuted/shifted ints, str, tuple, mixed, bool (True/False), names equal across variables; operands disagreeing on a shared variable's state list are outside the property's stated precondition; G sizes - 'big' cases with 9-10 variables per factor out of 12 (small-int, int, str, mixed names), cardinality 1, zero-variable factors, empty argument lists, == with explicit atol 0 / 2^-10 / 1; H magnitudes - 'mag' cases with per-entry exponents 2^-480..2^480 compared purely RELATIVELY (1e-9) to the model's exact value, == inside/outside rtol at these magnitudes, totals down to 2^-480 (inputs chosen so results stay in the normal float range: under/overflow is not modelled; numpy only, because torch.Tensor(list) passes through float32 - torch cases use float32-exact dyadic values); I backends - every stream numpy and torch except mag and from_dataframe; J variants - inplace True/False for every method, operators and reflected operators, show_warnings, atol; K rejected calls - a LATER invalid argument after valid ones for marginalize/maximize/reduce out of place (operand unchanged) and in place for up-front rejections (object unchanged); in-place calls rejected late (bad state number, duplicate variable) leave pgmpy's object half-modified - outside the property text, reported, not flagged; L orders - hash seeds, every axis order, state_names dict key order != variable order, evidence/variable list orders, set orders as model parameters; M budget - tools/check.py.  Each op is compared literally with the model (variable order, cardinalities, shape, flat table, state-name "
         "dict) and with the brute-force named-assignment definition.  Non-trivial: at least one operand with >= 2 "
         "variables of unequal cardinality or a permuted state list; distinct = distinct canonical case content")
@@ -56,7 +56,7 @@ def zname(x):
 
 NAME_TABLES = {
     "str": ["V%d" % i for i in range(16)],
-    "int": [3 * i + 1 for i in range(16)],
+    "int": [1000 + 3 * i for i in range(16)],          # above the small-int cache: equal objects are not identical
     "smallint": list(range(16)),                       # set iteration order of small ints (>= 9 of them)
     "tuple": [("v", i) for i in range(16)],
     # one name a substring / prefix of another
@@ -68,8 +68,19 @@ _NAME_INV = {st: {repr(nm): i for i, nm in enumerate(tab)} for st, tab in NAME_T
 STR_VSTYLES = ("str", "substr")
 
 
+def fresh(x):
+    """an equal but NOT identical object (str rebuilt, tuple rebuilt, int above the small-int cache re-parsed)"""
+    if isinstance(x, str):
+        return "".join(list(x)) if len(x) > 1 else (x + "_")[:-1]
+    if isinstance(x, tuple):
+        return tuple(fresh(e) for e in x)
+    if isinstance(x, int) and not isinstance(x, bool) and abs(x) > 256:
+        return int(str(x))
+    return x
+
+
 def vname(style, v):
-    return NAME_TABLES[style][v]
+    return fresh(NAME_TABLES[style][v])
 
 
 def vid(style, nm):
@@ -89,18 +100,19 @@ def gen_universe(rng, nv=6, cards=None):
             st = list(range(c))
             rng.shuffle(st)
             if rng.random() < 0.3:
-                st = [x + rng.choice([-2, 5, 10]) for x in st]
+                off = rng.choice([-2, 5, 10, 600])
+                st = [x + off for x in st]
         elif style == "str":
-            st = [STR0 + k for k in rng.sample(range(8), c)]
+            st = [STR0 + k for k in rng.sample(range(max(8, c + 3)), c)]
         elif style == "tuple":
-            st = [TUP0 + k for k in rng.sample(range(8), c)]
+            st = [TUP0 + k for k in rng.sample(range(max(8, c + 3)), c)]
         elif style == "bool":
             # True/False for <= 2 states (True == 1 and hash(True) == hash(1): the model sees 1/0), ints otherwise
             st = list(range(c))
             rng.shuffle(st)
         else:
             pool = [0, 1, 2, 3, STR0, STR0 + 1, STR0 + 2, TUP0, TUP0 + 1]
-            st = rng.sample(pool, c)
+            st = rng.sample(pool, c) if c <= len(pool) else rng.sample(range(c + 5), c)
         states[v] = st
     return {"sstyle": style, "vstyle": rng.choice(["str", "str", "int", "tuple", "substr", "mixed"]),
             "snrev": rng.random() < 0.3,      # state_names dict given in another key order than the variables
@@ -164,15 +176,59 @@ def _prod(xs):
     return n
 
 
+def gen_nearone(rng, i):
+    """a factor whose total is near (not exactly) one; entries are the exact rationals of the floats pgmpy will hold"""
+    import struct
+    torch_ = i % 4 == 3
+    U = gen_universe(rng)
+    fv = rng.sample(range(6), rng.randint(1, 2))
+    n = _prod(U["card"][v] for v in fv)
+    style = rng.choice(["pow10", "pow10", "ulp", "decimals", "thirds"])
+    w = [Fr(rng.randint(1, 20)) for _ in range(n)]
+    tot = sum(w)
+    if style == "pow10":
+        k = rng.randint(2, 12) if not torch_ else rng.randint(2, 6)
+        target = 1 + rng.choice([1, -1]) * Fr(1, 10**k)
+        vals = [x / tot * target for x in w]
+        tag = "1%s1e-%d" % ("+-"[target < 1], k)
+    elif style == "ulp":
+        j = rng.choice([1, 2, 3, 5]) * rng.choice([1, -1])
+        target = 1 + Fr(j, 2**52 if not torch_ else 2**22)
+        vals = [x / tot * target for x in w]
+        tag = "1%+dulp" % j
+    elif style == "decimals":
+        dec = rng.choice([2, 3, 6])
+        vals = [Fr(int(x / tot * 10**dec), 10**dec) for x in w]
+        if all(v == 0 for v in vals):
+            vals[0] = Fr(1, 10**dec)
+        tag = "%d-decimals" % dec
+    else:
+        dec = rng.choice([3, 6, 9])
+        vals = [Fr(int(Fr(1, n) * 10**dec), 10**dec)] * n
+        tag = "equal-entries-%d-decimals" % dec
+
+    def as_float(x):
+        f = float(x)
+        if torch_:
+            f = struct.unpack("f", struct.pack("f", f))[0]
+        return f
+
+    fl = [as_float(x) for x in vals]
+    fr = [[Fr(f).numerator, Fr(f).denominator] for f in fl]
+    return {"kind": "nearone", "backend": "torch" if torch_ else "numpy", "U": U, "tag": tag,
+            "f": {"vars": fv, "vals": [0] * n, "den": 1, "fr": fr}, "qseed": rng.randint(0, 10**9)}
+
+
 def cases(tier, seed):
     rng = random.Random(seed)
     out = []
-    npair, nperm, neq, nerr = (420, 40, 160, 60) if tier == "quick" else (4200, 400, 1600, 300)
+    npair, nperm, neq, nerr = (340, 30, 130, 50) if tier == "quick" else (4200, 400, 1600, 300)
     nalign = 80 if tier == "quick" else 800
     nfset = 120 if tier == "quick" else 1200
     nalias = 100 if tier == "quick" else 1000
+    nnear, nwide = (90, 3) if tier == "quick" else (900, 40)
     nfdict = 120 if tier == "quick" else 1600
-    nsess, npure, nbig, nmag = (100, 60, 16, 60) if tier == "quick" else (1000, 600, 160, 600)
+    nsess, npure, nbig, nmag = (90, 50, 12, 50) if tier == "quick" else (1000, 600, 160, 600)
     for i in range(npair):
         U = gen_universe(rng)
         rel, fv, gv = gen_scopes(rng)
@@ -261,7 +317,11 @@ def cases(tier, seed):
         U = gen_universe(rng)
         fv = rng.sample(range(6), rng.randint(1, 3))
         F = gen_factor(rng, U, fv, zeros=0.2)
-        cur, steps = list(fv), []
+        near = rng.random() < 0.25
+        if near:                               # start from a table whose total is near (not exactly) one
+            nc = gen_nearone(rng, i)
+            U, F, fv = nc["U"], nc["f"], nc["f"]["vars"]
+        cur, steps = list(fv), ([["normalize"], ["observe"], ["normalize"]] if near else [])
         size = lambda vs: _prod(U["card"][v] for v in vs)
         for _ in range(rng.randint(5, 8)):
             kind = rng.choice(["product", "sum", "marginalize", "maximize", "reduce", "normalize", "scale", "shift",
@@ -343,6 +403,23 @@ def cases(tier, seed):
         gv = rng.sample(range(6), rng.randint(1, 2))
         out.append({"kind": "alias", "backend": "torch" if i % 4 == 3 else "numpy", "U": U, "f": F,
                     "g": gen_factor(rng, U, gv, zeros=0.2), "qseed": rng.randint(0, 10**9)})
+    # Q / near-one totals: tables whose total is 1 +- 10^-k (k = 2..12), 1 +- a few ulp, or typed with 2-6 decimals
+    for i in range(nnear):
+        out.append(gen_nearone(rng, i))
+    # P: a variable with more than 256 states
+    for i in range(nwide):
+        big = rng.choice([257, 300])
+        cards = [big, 2, 3, 1, 2, 2]
+        U = gen_universe(rng, cards=cards)
+        if U["sstyle"] == "bool":
+            U["sstyle"] = "default"
+            U["states"] = [list(range(c)) for c in U["card"]]
+        fv = [0] + rng.sample(range(1, 6), rng.randint(0, 2))
+        rng.shuffle(fv)
+        gv = rng.sample(fv, rng.randint(1, len(fv)))
+        out.append({"kind": "big", "backend": "torch" if i % 4 == 3 else "numpy", "U": U, "rel": "wide",
+                    "f": gen_factor(rng, U, fv, zeros=0.1), "g": gen_factor(rng, U, gv, zeros=0.3), "neg": False,
+                    "qseed": rng.randint(0, 10**9)})
     for i in range(nerr):
         U = gen_universe(rng)
         fv = rng.sample(range(6), rng.randint(1, 3))
@@ -379,6 +456,8 @@ def ravel(cards, idx):
 
 def fval(F, n):
     """exact value of entry n of a factor spec: vals[n]/den, times 2**exp[n] in the magnitude stream"""
+    if "fr" in F:
+        return Fr(F["fr"][n][0], F["fr"][n][1])
     x = Fr(F["vals"][n], F["den"])
     if "exp" in F:
         x *= Fr(2) ** F["exp"][n]
@@ -1667,6 +1746,7 @@ def run_session(case, drv):
     tags = ["session", "backend=" + case["backend"], "vars=" + U["vstyle"], "states=" + U["sstyle"]]
     hv = [[v, hash(N(v))] for v in range(6)]
     prev_hash, prev_key = hash(phi), drv.call("c04_hash", [hv, cur])
+    prev_wire = cur
     nops = 0
     for step in case["steps"]:
         kind = step[0]
@@ -1753,7 +1833,10 @@ def run_session(case, drv):
         if not (phi == fresh and fresh == phi):
             return bad("impl!=spec:session:not-equal-to-fresh-object", {"step": step, "cur": cur})
         h, k = hash(phi), drv.call("c04_hash", [hv, cur])
-        if k != prev_key and h == prev_hash:      # a changed object must not keep its old hash (stale cache)
+        visibly = (prev_wire is None or prev_wire[0] != cur[0] or prev_wire[1] != cur[1] or len(prev_wire[2]) != len(cur[2])
+                   or any(abs(x - y) > Fr(1, 10**12) * max(abs(x), abs(y)) for x, y in zip(prev_wire[2], cur[2])))
+        prev_wire = cur
+        if k != prev_key and h == prev_hash and visibly:   # a (visibly, beyond float rounding) changed object must not keep its old hash
             return bad("impl!=model:session:hash-after-%s" % kind, {"impl_same": True, "model_same": False})
         prev_hash, prev_key = h, k
     return ok(nontrivial=nops >= 3, key=common.canon_key(["session", U, F, case["steps"], case["backend"]]), tags=tags,
@@ -1913,6 +1996,29 @@ def run_purity(case, drv):
             return bad("impl!=model:purity:%s:reused-argument:%s" % (name, d["what"]), {"diff": d, "f": F2})
         if after() != before or snapshot(p2) != s2:
             return bad("argument-mutated:%s:reuse" % name, {"f": F2})
+    # every documented container type for a "list, array-like" of variables (one-shot iterators are not array-like)
+    import pandas as pd
+    conts = [("tuple", tuple), ("set", set), ("frozenset", frozenset), ("dict-keys", lambda l: dict.fromkeys(l).keys())]
+    if U["vstyle"] in ("str", "substr", "int", "smallint"):
+        conts += [("ndarray", np.array), ("pandas-Index", pd.Index)]
+    mM = drv.call("c04_marginalize", [fw, X])
+    for cn, mkc in conts:
+        arg = mkc([N(v) for v in X])
+        p1 = build(U, F)
+        try:
+            r = p1.marginalize(arg, inplace=False)
+            r2 = p1.maximize(mkc([N(v) for v in X]), inplace=False)
+            gc = p1.get_cardinality(mkc([N(v) for v in X]))
+        except (ValueError, KeyError, IndexError, TypeError) as e:
+            return bad("impl!=model:container:%s:raised" % cn, {"exc": repr(e)[:200], "f": F, "X": X})
+        nops += 1
+        tags.append("container=" + cn)
+        ref_m = build(U, F).marginalize([N(v) for v in X], inplace=False)
+        ref_x = build(U, F).maximize([N(v) for v in X], inplace=False)
+        if impl_canon(U, r) != impl_canon(U, ref_m) or impl_canon(U, r2) != impl_canon(U, ref_x) or cmp_literal(U, ref_m, mM):
+            return bad("impl!=model:container:%s" % cn, {"f": F, "X": X})
+        if sorted(vid(U["vstyle"], k.item() if hasattr(k, "item") else k) for k in gc) != sorted(set(X)):
+            return bad("impl!=model:container:%s:get_cardinality" % cn, {"f": F, "X": X})
     # get_cardinality / assignment arguments and results
     p1 = build(U, F)
     s1 = snapshot(p1)
@@ -1948,7 +2054,7 @@ def run_big(case, drv):
         if b:
             return b
     for _ in range(2):
-        X = rng.sample(fv, rng.randint(1, 4))
+        X = rng.sample(fv, rng.randint(1, min(4, len(fv))))
         keep = [v for v in fv if v not in X]
         spec, specm = {}, {}
         for k, x in tf.items():
@@ -1987,7 +2093,7 @@ def run_big(case, drv):
     ka, kb = drv.call("c04_hash", [hv, aw]), drv.call("c04_hash", [hv, bw])
     if (hash(a) == hash(bb)) != (ka == kb):
         return bad("impl!=model:hash:big", {"impl": hash(a) == hash(bb), "model": ka == kb})
-    ctx.tags += [">=9-variables", "nvars=%d+%d" % (len(fv), len(G["vars"])), "backend=" + case["backend"], "vars=" + U["vstyle"]]
+    ctx.tags += [">256-states" if case.get("rel") == "wide" else ">=9-variables", "nvars=%d+%d" % (len(fv), len(G["vars"])), "backend=" + case["backend"], "vars=" + U["vstyle"]]
     return ok(nontrivial=True, key=common.canon_key(["big", U, F, G, case["backend"]]), tags=ctx.tags, note="%d ops" % ctx.nops)
 
 
@@ -2143,6 +2249,73 @@ def run_alias(case, drv):
     return ok(nontrivial=True, key=common.canon_key(["alias", U, F, G, case["backend"]]), tags=tags, note="%d ops" % nops)
 
 
+# ------------------------------------------------------------------ Q: totals near (but not exactly) one
+def run_nearone(case, drv):
+    """normalize (out of place, in place, twice, after marginalize, after a scalar product) on tables whose total is
+    within 1e-2 .. a few ulp of one: compared RELATIVELY (1e-9) with the model's exact v / sum(v); the result's total is 1"""
+    U, F = case["U"], case["f"]
+    rng = random.Random(case["qseed"])
+    N = lambda v: vname(U["vstyle"], v)
+    fw = wire(U, F)
+    tf = spec_table(U, F)
+    tot = sum(tf.values())
+    tags = ["nearone", "backend=" + case["backend"], "total=" + case["tag"],
+            "total-within-isclose-of-1" if abs(tot - 1) <= Fr(1, 10**5) and tot != 1 else "total-outside-isclose"]
+    nops = 0
+
+    def total_ok(phi):
+        t = float(npvals(phi).sum())
+        return abs(t - 1.0) <= 1e-12
+
+    m = drv.call("c04_normalize", fw)
+    spec = {k: x / tot for k, x in tf.items()}
+    variants = [("out-of-place", lambda p: p.normalize(inplace=False)), ("in-place", lambda p: (p.normalize(inplace=True), p)[1]),
+                ("default-inplace", lambda p: (p.normalize(), p)[1])]
+    for vn, call in variants:
+        phi = build(U, F)
+        s0 = snapshot(phi)
+        r = call(phi)
+        nops += 1
+        tags.append("op=normalize-" + vn)
+        d = cmp_literal(U, r, m) or cmp_spec(U, r, spec)
+        if d:
+            return bad("impl!=model:normalize:%s:%s" % (vn, d["what"]), {"diff": d, "f": F, "total": str(tot), "float_total": float(tot)})
+        if not total_ok(r):
+            return bad("impl!=spec:normalize:%s:total-not-one" % vn, {"total": float(npvals(r).sum()), "f": F})
+        if vn == "out-of-place" and snapshot(phi) != s0:
+            return bad("operand-mutated:normalize", {"f": F})
+        # normalising the normalised factor again changes nothing beyond rounding
+        r.normalize(inplace=True)
+        d = cmp_spec(U, r, spec)
+        if d or not total_ok(r):
+            return bad("impl!=spec:normalize:%s:twice" % vn, {"diff": d, "f": F})
+    # a scalar multiple close to one, then normalize: same distribution
+    c = 1.0 + rng.choice([2.0 ** -20, -2.0 ** -20, 2.0 ** -30])
+    phi = build(U, F)
+    phi.product(c, inplace=True)
+    phi.normalize(inplace=True)
+    nops += 1
+    d = cmp_spec(U, phi, spec)
+    if d or not total_ok(phi):
+        return bad("impl!=spec:normalize:after-scalar-product", {"diff": d, "f": F, "c": c})
+    # marginalize, then normalize the marginal (its total is the same near-one number)
+    if len(F["vars"]) >= 2:
+        v = F["vars"][0]
+        keep = F["vars"][1:]
+        marg = {}
+        for k, x in tf.items():
+            kk = restrict(k, keep)
+            marg[kk] = marg.get(kk, 0) + x
+        phi = build(U, F)
+        r = phi.marginalize([N(v)], inplace=False).normalize(inplace=False)
+        nops += 1
+        d = cmp_spec(U, r, {k: x / tot for k, x in marg.items()})
+        if d or not total_ok(r):
+            return bad("impl!=spec:normalize:after-marginalize", {"diff": d, "f": F})
+    # sample() normalises internally: only check it does not disturb the factor
+    return ok(nontrivial=True, key=common.canon_key(["nearone", U, F, case["backend"]]), tags=tags, note="%d ops" % nops)
+
+
 def run_case(case, drv):
     from pgmpy import config
     backend = case.get("backend", "numpy")
@@ -2161,6 +2334,12 @@ def run_case(case, drv):
             return run_fdict(case, drv)
         if case["kind"] == "alias":
             return run_alias(case, drv)
+        if case["kind"] == "nearone":
+            _REL[0] = True
+            try:
+                return run_nearone(case, drv)
+            finally:
+                _REL[0] = False
         if case["kind"] == "session":
             return run_session(case, drv)
         if case["kind"] == "purity":
